@@ -27,6 +27,9 @@ type c17Params struct {
 	PreKeys  []int      `json:"prekeys"`  // keys Get+Released before the window (resident in LRU)
 	Clients  [][]string `json:"clients"`
 	QB, TB   int
+	// Stmt: scheduling points before every statement of package cache (the binary is built
+	// with vrewrite -stmt leveldb/cache); off: points at synchronisation operations only
+	Stmt bool `json:"stmt"`
 }
 
 type cval struct {
@@ -120,6 +123,8 @@ func (w *c17World) get(who string, key uint64, hold *[]*cache.Handle) {
 
 func c17Exec(p *c17Params, prefix []int) *explore.Exec {
 	w := &c17World{live: map[uint64]*cval{}, out: map[*cval]int{}, delCalls: map[string]int{}}
+	vsched.StmtEnabled = p.Stmt
+	defer func() { vsched.StmtEnabled = true }()
 	r := vsched.Run(vsched.Options{Prefix: prefix}, func() {
 		var cacher cache.Cacher
 		if p.Capacity >= 0 {
@@ -156,13 +161,17 @@ func c17Exec(p *c17Params, prefix []int) *explore.Exec {
 						name := fmt.Sprintf("%s.%d", who, oi)
 						key := uint64(arg)
 						existed := w.live[key] != nil && w.live[key].released == 0
+						// the entry this Delete can refer to holds a value constructed before the call
+						// started; a later residency of the same key is another entry (its handles do
+						// not hold the callback back)
+						before := w.nvals
 						delOK := w.c.Delete(0, key, func() {
 							w.delCalls[name]++
 							if w.delCalls[name] > 1 {
 								w.bad("delete callback %s ran %d times", name, w.delCalls[name])
 							}
 							for v, n := range w.out {
-								if v.key == key && n > 0 && v.released == 0 && !w.forceClosed {
+								if v.key == key && v.id <= before && n > 0 && v.released == 0 && !w.forceClosed {
 									w.bad("delete callback of key %d ran while a handle to value #%d is outstanding", key, v.id)
 								}
 							}
@@ -310,7 +319,21 @@ func init() {
 			per := map[string]any{}
 			hists := 0
 			deadlocks := map[string]int{}
+			drivers := c17Drivers()
+			// second pass at statement granularity inside package cache: unsynchronised accesses
+			// (a scratch buffer shared between two callers, a field read after the unlock) are
+			// invisible to scheduling at synchronisation operations; bound 2 (thorough 3), without
+			// the 511-node preload drivers
 			for _, d := range c17Drivers() {
+				if d.Preload > 0 {
+					continue
+				}
+				d.Name += "@stmt"
+				d.Stmt = true
+				d.QB, d.TB = 2, 3
+				drivers = append(drivers, d)
+			}
+			for _, d := range drivers {
 				if !cfgSelected(d.Name) {
 					continue
 				}
